@@ -3,4 +3,12 @@ EXTENDS IBBListen
 (* x1 and x2 ask for the same session (take-over), x3 for another one; o1 opens the first, o2 the second *)
 XKey1 == [x \in XCalls |-> IF x = "x3" THEN "k2" ELSE "k1"]
 OKey1 == [o \in Opens |-> IF o = "o2" THEN "k2" ELSE "k1"]
+AllNames == Calls \cup TCalls \cup Reqs
+(* one session *)
+CLb == [c \in AllNames |-> "b"]
+LInitAny == [Lsn -> {"none", "open"}]
+(* two sessions sharing the Handler: the names ending in 2 (a2, o2, c2, p2) and the Listen call l1 belong to the second *)
+CL2 == [c \in AllNames |-> IF c \in {"a2", "o2", "c2", "p2", "l1", "x3"} THEN "c" ELSE "b"]
+(* the first session listens from the start; the second one may or may not (Listen is then a call of the model) *)
+LInit2 == {f \in [Lsn -> {"none", "open"}] : f["b"] = "open"}
 =============================================================================
